@@ -1,1 +1,130 @@
-ITEMS = []
+"""Further extractor items (see extract.py): scaling laws, segment/container expressions, generator
+prototype ladder, scheduler constants, CSV field list."""
+import ast
+
+from harness.extract import Fail, parse, find, find_assign, strip_doc, src, coq_list, num_q, qstr
+
+
+def law_expr(node, env):
+    if isinstance(node, ast.Name):
+        if node.id == 'num_cpus':
+            return 'LCpus'
+        if node.id == 'baseline_cpu_seconds':
+            return 'LBase'
+        if node.id in env:
+            return env[node.id]
+        raise Fail('unknown name in scaling law: ' + node.id)
+    if isinstance(node, ast.Constant) and isinstance(node.value, int) and not isinstance(node.value, bool):
+        return f'(LConst {node.value})'
+    if isinstance(node, ast.BinOp) and isinstance(node.op, ast.Div):
+        return f'(LDiv {law_expr(node.left, env)} {law_expr(node.right, env)})'
+    if isinstance(node, ast.BinOp) and isinstance(node.op, ast.Add):
+        return f'(LAdd {law_expr(node.left, env)} {law_expr(node.right, env)})'
+    if isinstance(node, ast.Call) and isinstance(node.func, ast.Attribute) and src(node.func.value) == 'np' \
+            and not node.keywords:
+        fn = node.func.attr
+        if fn == 'log' and len(node.args) == 1:
+            return f'(LLog {law_expr(node.args[0], env)})'
+        if fn == 'sqrt' and len(node.args) == 1:
+            return f'(LSqrt {law_expr(node.args[0], env)})'
+        if fn == 'power' and len(node.args) == 2:
+            return f'(LPow {law_expr(node.args[0], env)} {law_expr(node.args[1], env)})'
+    raise Fail('unrecognised expression in scaling law: ' + src(node))
+
+
+def lt_test(test):
+    if isinstance(test, ast.Compare) and src(test.left) == 'num_cpus' and len(test.ops) == 1 \
+            and isinstance(test.ops[0], ast.Lt) and isinstance(test.comparators[0], ast.Constant) \
+            and isinstance(test.comparators[0].value, int):
+        return test.comparators[0].value
+    raise Fail('unrecognised test in scaling law: ' + src(test))
+
+
+def law_body(fn):
+    args = [a.arg for a in fn.args.args]
+    if args != ['num_cpus', 'baseline_cpu_seconds']:
+        raise Fail(f'{fn.name}: unexpected parameters {args}')
+    env = {}
+    body = strip_doc(fn.body)
+    for i, st in enumerate(body):
+        if isinstance(st, ast.Assign) and len(st.targets) == 1 and isinstance(st.targets[0], ast.Name):
+            env[st.targets[0].id] = law_expr(st.value, env)
+        elif isinstance(st, ast.If) and not st.orelse and len(st.body) == 1 and isinstance(st.body[0], ast.Assign) \
+                and isinstance(st.body[0].targets[0], ast.Name):
+            k = lt_test(st.test)
+            name = st.body[0].targets[0].id
+            if name not in env:
+                raise Fail(f'{fn.name}: conditional assignment to an unset name')
+            env[name] = f'(LIfLt {k} {law_expr(st.body[0].value, env)} {env[name]})'
+        elif isinstance(st, ast.If) and len(st.body) == 1 and isinstance(st.body[0], ast.Return) \
+                and len(st.orelse) == 1 and isinstance(st.orelse[0], ast.Return) and i == len(body) - 1:
+            k = lt_test(st.test)
+            return f'(LIfLt {k} {law_expr(st.body[0].value, env)} {law_expr(st.orelse[0].value, env)})'
+        elif isinstance(st, ast.Return) and i == len(body) - 1:
+            return law_expr(st.value, env)
+        else:
+            raise Fail(f'{fn.name}: unrecognised statement ' + src(st))
+    raise Fail(f'{fn.name}: no return')
+
+
+def scaling_funcs():
+    t = parse('eudoxia/workload/pipeline.py')
+    seg = find(t, ast.ClassDef, 'Segment')
+    d = find_assign(seg.body, 'SCALING_FUNCS')
+    if not isinstance(d, ast.Dict):
+        raise Fail('SCALING_FUNCS is not a dict literal')
+    sf = find(t, ast.ClassDef, 'ScalingFuncs')
+    rows = []
+    for k, v in zip(d.keys, d.values):
+        if not (isinstance(k, ast.Constant) and isinstance(k.value, str)):
+            raise Fail('SCALING_FUNCS key is not a string')
+        if not (isinstance(v, ast.Attribute) and src(v.value) == 'ScalingFuncs'):
+            raise Fail('SCALING_FUNCS value is not ScalingFuncs.<name>')
+        rows.append((k.value, find(sf, ast.FunctionDef, v.attr)))
+    return rows
+
+
+def item_law_names():
+    return 'list string', coq_list([qstr(n) + '%string' for n, _ in scaling_funcs()])
+
+
+def item_law_bodies():
+    return 'list (string * law_expr)', coq_list([f'({qstr(n)}%string, {law_body(fn)})' for n, fn in scaling_funcs()])
+
+
+def stmts_containing(fn, needles):
+    """normalised source of the simple statements of fn that mention one of the needles, in order"""
+    out = []
+    for n in ast.walk(fn):
+        if isinstance(n, (ast.Assign, ast.AugAssign, ast.Return, ast.Expr)) and not \
+                (isinstance(n, ast.Expr) and isinstance(n.value, ast.Constant)):
+            s = src(n)
+            if any(x in s for x in needles):
+                out.append((n.lineno, s))
+    return [s for _, s in sorted(out)]
+
+
+def item_segment_exprs():
+    t = parse('eudoxia/workload/pipeline.py')
+    seg = find(t, ast.ClassDef, 'Segment')
+    out = []
+    for name in ('get_io_seconds', 'get_cpu_time', 'get_peak_memory_gb'):
+        fn = find(seg, ast.FunctionDef, name)
+        out.append(name + ': ' + ' ; '.join(src(s) for s in strip_doc(fn.body)))
+    c = parse('eudoxia/executor/container.py')
+    cls = find(c, ast.ClassDef, 'Container')
+    gen = find(cls, ast.FunctionDef, '_tick_generator')
+    out += ['tick: ' + s for s in stmts_containing(gen, ['tick_length_secs', 'DISK_SCAN_GB_SEC', 'seg_ticks',
+                                                           'get_peak_memory_gb', 'memory_gb'])]
+    init = find(cls, ast.FunctionDef, '__init__')
+    out += ['init: ' + s for s in stmts_containing(init, ['tick_length_secs'])]
+    sus = find(cls, ast.FunctionDef, 'suspend_container')
+    out += ['suspend: ' + s for s in stmts_containing(sus, ['DISK_SCAN_GB_SEC', 'tick_length_secs', 'write_to_disk_ticks ='])]
+    return 'list string', coq_list([qstr(s) + '%string' for s in out])
+
+
+ITEMS = [
+    ('law_names', item_law_names),
+    ('law_bodies', item_law_bodies),
+    ('segment_exprs', item_segment_exprs),
+]
